@@ -1,0 +1,16 @@
+//go:build verif
+
+package estimator
+
+import "github.com/jech/galene/rtptime"
+
+// VerifSetRate makes Estimate return the given rates for the next interval.
+func (e *Estimator) VerifSetRate(rate, packetRate uint32) {
+	e.mu.Lock()
+	defer e.mu.Unlock()
+	e.rate = rate
+	e.packetRate = packetRate
+	e.bytes = 0
+	e.packets = 0
+	e.time = rtptime.Now(rtptime.JiffiesPerSec)
+}
